@@ -36,6 +36,27 @@ def bounds(tier, seed):
             'canary_names': len(G.CANARY_NAMES), 'module_name_slice': 'index % 8 == seed % 8' if q else 'all'}
 
 
+def _sandbox():
+    """if the tree under test does call what a document names, let it happen in an empty scratch directory with no stdin"""
+    import os, tempfile
+    try:
+        d = '/var/tmp/vf-sbx-%d' % os.getppid()        # removed by the supervisor (vf/main.py) when the run ends
+        os.makedirs(d, exist_ok=True)
+        os.chdir(d)
+        fd = os.open(os.devnull, os.O_RDONLY)
+        os.dup2(fd, 0)
+    except OSError:
+        pass
+
+
+class _DocTimeout(BaseException):
+    pass
+
+
+def _doc_alarm(signum, frame):
+    raise _DocTimeout()
+
+
 CUSTOM = []
 
 
@@ -67,6 +88,9 @@ def worker_init():
     global MON, NAMES
     import vf_canary
     customise()
+    _sandbox()
+    import signal
+    signal.signal(signal.SIGALRM, _doc_alarm)
     MON = secmon.Monitor(harness_files=[__file__])
     corpus = []
     for t in G.CORE + G.PY_EXACT:
@@ -149,6 +173,8 @@ def check_doc(T, sub, case, doc, tag, kind, ctx, profile, prime=()):
     for en, fn in ENTRY:
         T.evaluations += 1
         if T.trace: T.begin(case)
+        import signal
+        signal.setitimer(signal.ITIMER_REAL, 10.0)      # a document that makes the loader block (input(), sleep, a lock) is a finding, not a stuck check
         MON.arm(profile)
         try:
             try:
@@ -158,6 +184,7 @@ def check_doc(T, sub, case, doc, tag, kind, ctx, profile, prime=()):
             except BaseException as e:
                 res = ('exc', type(e).__name__, str(e)[:120])
         finally:
+            signal.setitimer(signal.ITIMER_REAL, 0)
             ev = [e for e in MON.disarm() if not ((e[0] == 'canary' and e[1] == 'module-getattr') or
                                                   (e[0] == 'pycall' and e[2] == '__getattr__' and e[1].endswith('vf_canary.py')))]
         if ev:
@@ -166,7 +193,9 @@ def check_doc(T, sub, case, doc, tag, kind, ctx, profile, prime=()):
             # C04 constrains what loading may *do*; it promises ConstructorError only for construction / unknown tags.
             # Another exception class on a value tag (python/complex with malformed text -> ValueError) is reported in the
             # evidence counters, not as a violation.
-            if expect == 'reject':
+            if res[1] == '_DocTimeout':
+                T.violation(sub, 'blocked', case, detail='%s on %r did not return within 10 s' % (en, doc))
+            elif expect == 'reject':
                 T.violation(sub, 'rejected-with-non-yaml-exception:' + res[1], case, detail='%s on %r raised %s(%s) instead of ConstructorError' % (en, doc, res[1], res[2]))
             else:
                 T.count('non-yaml-exception-on-value-tag:' + res[1])
